@@ -10,7 +10,7 @@
 (*   Probe  : a rule probe: verdict of the rule semantics vs verdict of    *)
 (*            the instrument on the emitted field schema            (C19)  *)
 (***************************************************************************)
-EXTENDS SebufOpenApi, SebufRules, Json, TLCExt
+EXTENDS SebufMock, SebufRules, Json, TLCExt
 
 CONSTANT TraceFile, Enforce, Inventory
 Tr == ndJsonDeserialize(TraceFile)
@@ -96,7 +96,24 @@ TProbe == /\ IsEvent("Probe")
           /\ "C19" \in Enforce => LET h == ProbeHow(Tr[l], Dev) IN Say(h \in {"ok"} \cup Dev, h)
           /\ UNCHANGED <<sl, doc, tv>>
 
-TNext == TSchema \/ TDoc \/ TFiles \/ TCheck \/ TProbe
+\* C20 (SebufMock): the mock server builds, answers a valid request with a response the server can
+\* serialise and that satisfies the published response schema, and a field with usable examples
+\* takes one of them
+MockBuildHow(e) == IF e.ok THEN "ok" ELSE "mock_does_not_build"
+MockHow(e) ==
+  IF ~e.ok THEN "mock_call_failed"
+  ELSE LET j == Canon(e.json) S == Canon(e.sch) IN
+       IF ~MockReplyConforms(j, S, doc) THEN "reply_violates_response_schema"
+       ELSE IF ~ExamplesUsed(e.leaves) THEN "example_not_used"
+       ELSE "ok"
+TMockBuild == /\ IsEvent("MockBuild")
+              /\ "C20" \in Enforce => LET h == MockBuildHow(Tr[l]) IN Say(h = "ok" \/ h \in Dev, h)
+              /\ UNCHANGED <<sl, doc, tv>>
+TMock == /\ IsEvent("Mock")
+         /\ "C20" \in Enforce => LET h == MockHow(Tr[l]) IN Say(h = "ok" \/ h \in Dev, h)
+         /\ UNCHANGED <<sl, doc, tv>>
+
+TNext == TSchema \/ TDoc \/ TFiles \/ TCheck \/ TProbe \/ TMockBuild \/ TMock
 TSpec == TInit /\ [][TNext]_tvars
 HighWater == TLCSet(1, IF l > TLCGet(1) THEN l ELSE TLCGet(1))
 Accepted == TRUE
